@@ -51,6 +51,7 @@ def run(ctx):
         try:
             C.sweep(ctx, model, table, select, nvec, profile, stats, judge_answers=True)
             C.history_sweep(ctx, model, select, 40 if ctx.tier == "quick" else 600, stats, judge_answers=True)
+            C.traffic_sweep(ctx, model, 1 if ctx.tier == "quick" else 4, profile, stats, judge_answers=True)
         except Exception as e:
             if gen is not None:                             # see harness/props/C06.py
                 raise
